@@ -23,7 +23,10 @@ class SetupPyWriter(DependencyWriter):
     def add_to_file(
         self, dependencies: list[Dependency], dry_run: bool = False
     ) -> Optional[ChangeSet]:
-        input_tree = self._parse_file()
+        try:
+            input_tree = self._parse_file()
+        except Exception:
+            return None
         wrapper = cst.MetadataWrapper(input_tree)
         file_context = FileContext(self.parent_directory, self.path, [], [], [])
 
